@@ -271,6 +271,11 @@ def encode_list(enc, it, lists, chars=None):
         return ['reg', size, n, content(flat + extra)]
     enc.decisions.append((False, None))
     if kind == 'lo':
+        if n > 0 and not any(lists) and not chars and rng.random() < enc.weird_empty:
+            # all lists empty: the offsets may sit anywhere, also beyond the content (valid)
+            flat = list(jv())
+            k = len(flat) + rng.choice([1, 4, 7])
+            return ['lo', w, [k] * (n + 1), content(flat)]
         pre = jv()
         flat = list(pre)
         offsets = [len(flat)]
